@@ -11,7 +11,7 @@ Lemma fixed_read_all_valid : forall sizes r acc d rest,
 Proof.
   induction sizes as [|k sizes IH]; intros r acc d rest Ht Hpos Hlen; [cbn [length] in Hlen; lia|].
   inversion Hpos as [|k' sz' Hk Hpos']. subst k' sz'.
-  cbn [read_all body_read]. unfold fixed_read.
+  cbn [read_all body_read]. rewrite (fixed_read_pos k r Hk).
   destruct (N.eqb_spec (f_remaining r) 0) as [E|E].
   - rewrite E, take_n_0 in Ht. inversion Ht. subst d rest. cbn [lift fst]. rewrite app_nil_r. reflexivity.
   - destruct (buf_read (N.min (f_remaining r) k) (f_src r)) as [out s'] eqn:Ebr.
@@ -47,7 +47,7 @@ Lemma fixed_read_all_invalid : forall sizes r acc,
 Proof.
   induction sizes as [|k sizes IH]; intros r acc Hlt Hpos; [cbn; discriminate|].
   inversion Hpos as [|k' sz' Hk Hpos']. subst k' sz'.
-  cbn [read_all body_read]. unfold fixed_read.
+  cbn [read_all body_read]. rewrite (fixed_read_pos k r Hk).
   destruct (N.eqb_spec (f_remaining r) 0) as [E|E]; [lia|].
   destruct (buf_read (N.min (f_remaining r) k) (f_src r)) as [out s'] eqn:Ebr.
   apply buf_read_spec in Ebr. destruct Ebr as [B1 [B2 [B3 B4]]].
